@@ -111,6 +111,26 @@ def gen_handover(repo):
         L.append(f'/-- translated from `plane.py:{cls}.multiply` (line {f.lineno}): the attributes set after `super().multiply` -/')
         body = 'w' if not sets else '{ w with ' + ', '.join(f'{a} := {p}' for a, p in sets) + ' }'
         L.append(f'def {nm} {{M P S T : Type}} (w : WfHandover M P S T) ' + ' '.join(f'({p} : {t})' for p, t in ps) + f' : WfHandover M P S T :=\n  {body}\n')
+    # Wavefront.__init__ (reached through Wavefront.empty -> cls(...)): self.focal_length = focal_length if focal_length else np.inf
+    wmod = ast.parse(open(os.path.join(repo, 'lentil/wavefront.py')).read())
+    emp = _find_method(wmod, 'Wavefront', 'empty')
+    cc = [n for n in ast.walk(emp) if isinstance(n, ast.Call) and ast.unparse(n.func) == 'cls']
+    if len(cc) != 1 or 'focal_length' not in {k.arg: ast.unparse(k.value) for k in cc[0].keywords} \
+            or {k.arg: ast.unparse(k.value) for k in cc[0].keywords}['focal_length'] != 'focal_length':
+        raise Refuse('Wavefront.empty does not pass focal_length=focal_length to the constructor')
+    ini = _find_method(wmod, 'Wavefront', '__init__')
+    fa = [st for st in ast.walk(ini) if isinstance(st, ast.Assign) and ast.unparse(st.targets[0]) == 'self.focal_length']
+    if len(fa) != 1: raise Refuse('Wavefront.__init__: assignment of self.focal_length not found')
+    def fterm(e):
+        if isinstance(e, ast.Name) and e.id == 'focal_length': return 'focal_length'
+        if ast.unparse(e) == 'np.inf': return 'np_inf'
+        if isinstance(e, ast.IfExp):
+            if not (isinstance(e.test, ast.Name) and e.test.id == 'focal_length'): raise Refuse('Wavefront.__init__: focal_length test not understood')
+            return f'(if truthy focal_length then {fterm(e.body)} else {fterm(e.orelse)})'
+        raise Refuse(f'Wavefront.__init__: focal_length expression {ast.unparse(e)}')
+    L.append(f'/-- translated from `wavefront.py:Wavefront.__init__` (line {fa[0].lineno}): `{ast.unparse(fa[0])}`; `truthy` is Python truthiness\n'
+             '(`None` and `0` are falsy) -/')
+    L.append('def wavefrontInitFocal {M : Type} (truthy : M → Bool) (np_inf : M) (focal_length : M) : M :=\n  ' + fterm(fa[0].value) + '\n')
     return '\n'.join(L), [f'Wavefront.empty keywords: {src}', f'_mul_pixelscale args: {pxa}', f'shape rule: {sha} if self.shape == () else {shb}']
 
 from py2lean import Refuse
